@@ -126,6 +126,7 @@ fn add_random_faults(
             op,
             nth: rng.below(4) as u32,
             kind,
+            persistent: false,
         });
     }
     if allow_fatal && rng.chance(1, 3) {
@@ -146,6 +147,7 @@ fn add_random_faults(
             op,
             nth: if op == OpKind::Read { rng.below(4) as u32 } else { rng.below(2) as u32 },
             kind: rng.pick(kinds).clone(),
+            persistent: rng.chance(1, 4),
         });
     }
     dedup_faults(&mut case.faults);
@@ -172,6 +174,67 @@ fn base_case(prop: &str, seed: u64, run: u64, opts: &Options, mode: Mode, files:
         faults: vec![],
         chunking: vec![],
         extra_args: vec![],
+        path_form: PathForm::Explicit,
+        path_args: vec![],
+    }
+}
+
+fn gen_path_form(rng: &mut Rng, explicit_weight: u64) -> PathForm {
+    match rng.below(explicit_weight + 3) {
+        0 => PathForm::Directory,
+        1 => PathForm::Glob,
+        2 => PathForm::FilesFrom,
+        _ => PathForm::Explicit,
+    }
+}
+
+/// Path arguments that select exactly `paths` (relative, `dir/.../name.ext`) through `form`.
+fn path_args_for(rng: &mut Rng, form: PathForm, paths: &[String]) -> Vec<String> {
+    let mut dirs: Vec<String> = vec![];
+    for p in paths {
+        let d = p.rsplit_once('/').map(|x| x.0.to_string()).unwrap_or_default();
+        if !dirs.contains(&d) {
+            dirs.push(d);
+        }
+    }
+    let top = |d: &String| d.split('/').next().unwrap_or("").to_string();
+    match form {
+        PathForm::Explicit => vec![],
+        PathForm::Directory => {
+            if rng.chance(1, 2) {
+                // the common root, walked recursively
+                let mut tops: Vec<String> = dirs.iter().map(top).collect();
+                tops.dedup();
+                let mut uniq = vec![];
+                for t in tops {
+                    if !uniq.contains(&t) {
+                        uniq.push(t);
+                    }
+                }
+                uniq
+            } else {
+                dirs
+            }
+        }
+        PathForm::Glob => {
+            if rng.chance(1, 3) {
+                let mut uniq = vec![];
+                for t in dirs.iter().map(top) {
+                    let pat = format!("{t}/**/*.pas");
+                    if !uniq.contains(&pat) {
+                        uniq.push(pat);
+                    }
+                }
+                uniq
+            } else {
+                dirs.iter().map(|d| format!("{d}/*.pas")).collect()
+            }
+        }
+        PathForm::FilesFrom => match rng.below(3) {
+            0 => paths.to_vec(),
+            1 => dirs,
+            _ => dirs.iter().map(|d| format!("{d}/*.pas")).collect(),
+        },
     }
 }
 
@@ -187,13 +250,58 @@ pub struct Generated {
 
 // ---------------------------------------------------------------------------------- C16
 
+/// One encoded content that passes the pre-screen (its stdin reference run completes and is
+/// not slow); None after three discarded attempts. Sets `timing_sensitive` when a wall-clock
+/// measurement influenced the outcome.
+#[allow(clippy::too_many_arguments)]
+fn screened_content(
+    prop: &str,
+    rng: &mut Rng,
+    corpus: &Corpus,
+    opts: &Options,
+    class: SizeClass,
+    max_bytes: usize,
+    corrupt_one_in: u64,
+    stats: &mut Stats,
+    timing_sensitive: &mut bool,
+) -> Option<(Vec<u8>, &'static encoding_rs::Encoding, usize, &'static str, RunResult)> {
+    for _ in 0..3 {
+        let content = gen_text(rng, corpus, class, max_bytes);
+        let decorate = rng.chance(1, 2);
+        let bom = gen_bom_choice(rng);
+        let enc = encode_for(rng, opts.encoding(), &content.text, bom, decorate);
+        let bom_len = if enc.has_bom { codec::bom_for(enc.enc).unwrap().len() } else { 0 };
+        let mut bytes = enc.bytes.clone();
+        let mut kind = "decodable";
+        if rng.chance(1, corrupt_one_in) {
+            if let Some(c) = corrupt(rng, enc.enc, bom_len, &bytes) {
+                bytes = c;
+                kind = "malformed";
+            }
+        } else if rng.chance(1, 25) {
+            bytes = inject_bom_bytes(rng, bom_len, &bytes);
+            kind = "bom_bytes_injected";
+        }
+        let probe_case = base_case(prop, 0, 0, opts, Mode::StdinStdout, vec![SimFile::new("simfs:/probe.pas", bytes.clone())]);
+        let ra = child::run_reference(&probe_case.stdin_reference(0));
+        stats.invocations += 1;
+        if ra.exit.is_normal() && ra.wall_ms <= child::prescreen_slow_ms() {
+            return Some((bytes, enc.enc, bom_len, kind, ra));
+        }
+        stats.probe("content_discarded_by_prescreen");
+        *timing_sensitive = true;
+    }
+    None
+}
+
 pub fn generate_c16(seed: u64, run: u64, corpus: &Corpus, tier: Tier, stats: &mut Stats) -> Generated {
     let p = params("C16", tier);
     let mut rng = Rng::derive(seed, &[prop_tag("C16"), run]);
     let class = gen_class(&mut rng, tier);
     let label = if rng.chance(7, 10) { None } else { Some(pick_label(&mut rng)) };
     let opts = gen_options(&mut rng, label);
-    let path = "simfs:/src/unit1.pas".to_string();
+    let form = gen_path_form(&mut rng, 9);
+    let path = if form == PathForm::Explicit { "simfs:/src/unit1.pas".to_string() } else { "src/sub/unit1.pas".to_string() };
     // one content; contents the pure formatter chokes on by itself (C04's subject, not this
     // property's) are replaced, at most twice
     let mut attempt = 0;
@@ -211,6 +319,9 @@ pub fn generate_c16(seed: u64, run: u64, corpus: &Corpus, tier: Tier, stats: &mu
                 bytes = c;
                 kind = "malformed";
             }
+        } else if rng.chance(1, 25) {
+            bytes = inject_bom_bytes(&mut rng, bom_len, &bytes);
+            kind = "bom_bytes_injected";
         }
         let probe_case = base_case("C16", seed, run, &opts, Mode::StdinStdout, vec![SimFile::new(&path, bytes.clone())]);
         let ra = child::run_reference(&probe_case.stdin_reference(0));
@@ -253,10 +364,19 @@ pub fn generate_c16(seed: u64, run: u64, corpus: &Corpus, tier: Tier, stats: &mu
     *stats.by_encoding.entry(enc.enc.name().to_string()).or_insert(0) += 1;
 
     let mut cases = vec![];
+    // a file that does not exist cannot be discovered; name it explicitly
+    let form = if file.exists { form } else { PathForm::Explicit };
+    let path_args = path_args_for(&mut rng, form, &[path.clone()]);
+    *stats.by_mode.entry(format!("path_form:{}", form.name())).or_insert(0) += 1;
     // fault-free: every mode against the stdin reference
     for mode in [Mode::Files, Mode::Check, Mode::Stdout, Mode::StdinCheck] {
         let f = if mode.is_stdin() { SimFile::new(&path, bytes.clone()) } else { file.clone() };
-        cases.push(base_case("C16", seed, run, &opts, mode, vec![f]));
+        let mut c = base_case("C16", seed, run, &opts, mode, vec![f]);
+        if !mode.is_stdin() {
+            c.path_form = form;
+            c.path_args = path_args.clone();
+        }
+        cases.push(c);
     }
     // the world files mode leaves behind: files mode again and check mode on the result
     if kind == "decodable" && reference.exit == Exit::Code(0) && reference.stdout != bytes {
@@ -275,6 +395,10 @@ pub fn generate_c16(seed: u64, run: u64, corpus: &Corpus, tier: Tier, stats: &mu
         };
         let f = if mode.is_stdin() { SimFile::new(&path, bytes.clone()) } else { file.clone() };
         let mut c = base_case("C16", seed, run, &opts, mode, vec![f]);
+        if !mode.is_stdin() {
+            c.path_form = form;
+            c.path_args = path_args.clone();
+        }
         add_random_faults(&mut rng, &mut c, 0, enc.enc, bom_len, true);
         if mode == Mode::StdinStdout && rng.chance(1, 20) {
             c.knobs.stdout_tty = true;
@@ -283,6 +407,62 @@ pub fn generate_c16(seed: u64, run: u64, corpus: &Corpus, tier: Tier, stats: &mu
             c.knobs.avx2 = false;
         }
         cases.push(c);
+    }
+    // a small batch through one invocation (several files, a failing subset, any path form,
+    // one or two workers): every file against its own stdin reference
+    if run % 3 == 0 && file.exists {
+        let form = gen_path_form(&mut rng, 3);
+        let n_extra = rng.range(1, 4) as usize;
+        let prefix = if form == PathForm::Explicit { "simfs:/src/" } else { "src/" };
+        let mut files = vec![];
+        let mut f0 = file.clone();
+        f0.path = format!("{prefix}a/unit0.pas");
+        files.push(f0);
+        let mut encs = vec![(enc.enc, bom_len)];
+        for k in 0..n_extra {
+            let class = match rng.below(4) {
+                0 => SizeClass::Tiny,
+                1 | 2 => SizeClass::Small,
+                _ => SizeClass::Medium,
+            };
+            if let Some((b, e, bl, _k, _ra)) = screened_content("C16", &mut rng, corpus, &opts, class, p.max_bytes, 8, stats, &mut timing_sensitive) {
+                let mut f = SimFile::new(&format!("{prefix}{}/unit{}.pas", if rng.chance(1, 2) { "a" } else { "b" }, k + 1), b);
+                match rng.below(16) {
+                    0 => f.readable = false,
+                    1 => f.writable = false,
+                    _ => {}
+                }
+                files.push(f);
+                encs.push((e, bl));
+            }
+        }
+        if files.len() > 1 {
+            let mode = match rng.below(6) {
+                0 => Mode::Check,
+                1 => Mode::Stdout,
+                _ => Mode::Files,
+            };
+            let mut c = base_case("C16", seed, run, &opts, mode, files);
+            c.path_form = form;
+            let all_paths: Vec<String> = c.files.iter().map(|f| f.path.clone()).collect();
+            c.path_args = path_args_for(&mut rng, form, &all_paths);
+            c.workers = rng.range(1, 2) as usize;
+            c.chunks = gen_partition(&mut rng, c.files.len());
+            c.policy = Policy {
+                kind: if rng.chance(1, 2) { PolicyKind::Sequential } else { PolicyKind::Random },
+                seed: rng.next_u64(),
+                depth: 0,
+            };
+            for ix in 0..c.files.len() {
+                if rng.chance(1, 3) {
+                    let (e, bl) = encs[ix];
+                    let fatal = rng.chance(1, 3);
+                    add_random_faults(&mut rng, &mut c, ix, e, bl, fatal);
+                }
+            }
+            *stats.by_mode.entry(format!("batch_path_form:{}", form.name())).or_insert(0) += 1;
+            cases.push(c);
+        }
     }
     // exhaustive single-fault sweep over the fault-free history of the files-mode run and of
     // the stdin run
@@ -316,7 +496,8 @@ pub fn generate_c16(seed: u64, run: u64, corpus: &Corpus, tier: Tier, stats: &mu
                             op: rec.op,
                             nth,
                             kind: k.clone(),
-                        });
+persistent: false,
+});
                         cases.push(c);
                         stats.sweep_runs += 1;
                     }
@@ -367,6 +548,9 @@ pub fn generate_c17(seed: u64, run: u64, corpus: &Corpus, tier: Tier, stats: &mu
                 bytes = c;
                 kind = "malformed";
             }
+        } else if rng.chance(1, 12) {
+            bytes = inject_bom_bytes(&mut rng, bom_len, &bytes);
+            kind = "bom_bytes_injected";
         }
         let probe_case = base_case("C17", seed, run, &opts, Mode::StdinStdout, vec![SimFile::new(&path, bytes.clone())]);
         let ra = child::run_reference(&probe_case.stdin_reference(0));
@@ -431,6 +615,7 @@ pub fn generate_c17(seed: u64, run: u64, corpus: &Corpus, tier: Tier, stats: &mu
                 op: if rng.chance(1, 2) { OpKind::Read } else { OpKind::Write },
                 nth: rng.below(5) as u32,
                 kind: FaultKind::Eintr,
+                persistent: false,
             });
         }
         dedup_faults(&mut c.faults);
@@ -542,15 +727,18 @@ pub fn generate_c18(seed: u64, run: u64, corpus: &Corpus, tier: Tier, stats: &mu
     let label = if rng.chance(7, 10) { None } else { Some(pick_label(&mut rng)) };
     let opts = gen_options(&mut rng, label);
     let mut case = base_case("C18", seed, run, &opts, mode, vec![]);
+    let form = gen_path_form(&mut rng, 5);
     let mut shape = vec![];
     let mut fail_kinds = vec![];
     let mut timing_sensitive = false;
     for i in 0..n {
         let dir = rng.below(3);
         let name = if rng.chance(1, 6) { "same".to_string() } else { format!("u{i}") };
-        let mut path = format!("simfs:/d{dir}/{name}.pas");
-        while case.files.iter().any(|f| f.path == path) {
-            path = format!("simfs:/d{dir}/{name}_{i}.pas");
+        let prefix = if form == PathForm::Explicit { "simfs:/" } else { "root/" };
+        let ext = if form == PathForm::Directory { *rng.pick(&["pas", "pas", "dpr", "dpk", "PAS", "Dpr"]) } else { "pas" };
+        let mut path = format!("{prefix}d{dir}/{name}.{ext}");
+        while case.files.iter().any(|f| f.path.eq_ignore_ascii_case(&path)) {
+            path = format!("{prefix}d{dir}/{name}_{i}.{ext}");
         }
         // near-collisions on purpose
         let dup = if i > 0 && rng.chance(1, 5) { Some(rng.usize_below(i)) } else { None };
@@ -576,6 +764,10 @@ pub fn generate_c18(seed: u64, run: u64, corpus: &Corpus, tier: Tier, stats: &mu
                     let bom = gen_bom_choice(&mut rng);
                     let e = encode_for(&mut rng, opts.encoding(), &content.text, bom, decorate);
                     let bl = if e.has_bom { codec::bom_for(e.enc).unwrap().len() } else { 0 };
+                    let mut e = e;
+                    if rng.chance(1, 30) {
+                        e.bytes = inject_bom_bytes(&mut rng, bl, &e.bytes);
+                    }
                     // contents the pure formatter chokes on by itself are replaced
                     let probe_case = base_case("C18", seed, run, &opts, Mode::StdinStdout, vec![SimFile::new(&path, e.bytes.clone())]);
                     let ra = child::run_reference(&probe_case.stdin_reference(0));
@@ -595,11 +787,11 @@ pub fn generate_c18(seed: u64, run: u64, corpus: &Corpus, tier: Tier, stats: &mu
         let mut fail = "ok";
         if rng.chance(1, 7) {
             match rng.below(8) {
-                0 => {
+                0 if form == PathForm::Explicit => {
                     f.exists = false;
                     fail = "missing";
                 }
-                1 => {
+                0 | 1 => {
                     f.readable = false;
                     fail = "unreadable";
                 }
@@ -619,7 +811,8 @@ pub fn generate_c18(seed: u64, run: u64, corpus: &Corpus, tier: Tier, stats: &mu
                         op: OpKind::Read,
                         nth: rng.below(3) as u32,
                         kind: FaultKind::Eio,
-                    });
+persistent: false,
+});
                     fail = "read_eio";
                 }
                 6 => {
@@ -628,7 +821,8 @@ pub fn generate_c18(seed: u64, run: u64, corpus: &Corpus, tier: Tier, stats: &mu
                         op: OpKind::Open,
                         nth: 0,
                         kind: rng.pick(OPEN_FAULTS).clone(),
-                    });
+persistent: false,
+});
                     fail = "open_fault";
                 }
                 _ => {
@@ -642,7 +836,8 @@ pub fn generate_c18(seed: u64, run: u64, corpus: &Corpus, tier: Tier, stats: &mu
                         op,
                         nth: 0,
                         kind: rng.pick(kinds).clone(),
-                    });
+persistent: false,
+});
                     fail = "write_side";
                 }
             }
@@ -656,6 +851,10 @@ pub fn generate_c18(seed: u64, run: u64, corpus: &Corpus, tier: Tier, stats: &mu
         }
     }
     dedup_faults(&mut case.faults);
+    case.path_form = form;
+    let all_paths: Vec<String> = case.files.iter().map(|f| f.path.clone()).collect();
+    case.path_args = path_args_for(&mut rng, form, &all_paths);
+    *stats.by_mode.entry(format!("path_form:{}", form.name())).or_insert(0) += 1;
     case.workers = workers;
     case.chunks = gen_partition(&mut rng, n);
     case.policy = gen_policy(&mut rng);
